@@ -24,10 +24,10 @@ struct Perm {
 };
 
 // content alphabet
-enum Content { C_DET, C_ACT, C_BOTH, C_R2ACT, C_MULTI, C_UNKNOWN, C_HOOK, C_HOOKONLY, C_EMPTY, C_SAME2, C_SAME2ACT, C_NCONTENT };
+enum Content { C_DET, C_ACT, C_BOTH, C_R2ACT, C_MULTI, C_UNKNOWN, C_HOOK, C_HOOKONLY, C_EMPTY, C_SAME2, C_SAME2ACT, C_VALID_UNKNOWN, C_NCONTENT };
 const char* kContentName[] = {"R1-detectors", "R1-actions", "R1-both", "R2-actions", "[R1-det,R2-act]",
                               "unknown-ruleset", "R1-actions+hook", "hook-only", "R1-empty", "[R1-det,R1-act]",
-                              "[R1-act,R1-act]"};
+                              "[R1-act,R1-act]", "[R1-act,unknown-ruleset]"};
 
 struct RsPart {
   int base;   // 0 = R1, 1 = R2, -1 unknown
@@ -46,6 +46,7 @@ std::vector<RsPart> partsOf(int c) {
     case C_EMPTY: return {{0, false, false}};
     case C_SAME2: return {{0, true, false}, {0, false, true}};   // one tag, two drop-in rulesets on the SAME base
     case C_SAME2ACT: return {{0, false, true}, {0, false, true}};
+    case C_VALID_UNKNOWN: return {{0, false, true}, {-1, false, true}};  // a valid target listed BEFORE an unknown one: still refused as a whole
   }
   return {};
 }
@@ -449,7 +450,7 @@ struct C13 : vr::Driver {
   }
   std::string rule() override {
     return "per base configuration (two rulesets, drop-in permission combinations, two base hooks): BFS over reference-model "
-           "states; operations add(tag,content) for 11 contents (detectors / actions / both / other ruleset / multi-ruleset / "
+           "states; operations add(tag,content) for 12 contents (detectors / actions / both / other ruleset / multi-ruleset / valid target followed by an unknown one / "
            "two rulesets on the same base / unknown ruleset / with hook / hook only / empty) and remove(tag), applied through the real DropInServiceAdaptor "
            "inside Oomd::run; after every operation: scripted tick call order, fresh plugin instances per copy, "
            "oomd.dropin.added, private drop-in bookkeeping, hook priority (fired hook + full order) vs model; plus differential "
